@@ -435,7 +435,7 @@ def _probe_enum_class():
 
         def make_desired_cell_ch_chunks(self, value, fmt_modifier, field_palette):
             chunks, align = super().make_desired_cell_ch_chunks(value, fmt_modifier, field_palette)
-            v = self._vreg.setdefault(value, len(self._vreg))
+            v = self._vreg.setdefault((type(value), value), len(self._vreg))      # the key of the cell cache
             out = []
             for c in chunks:
                 assert c.c_prefix.startswith("\x00c"), "enum cell chunk without palette tag"
@@ -1230,7 +1230,7 @@ def _enum_cell(rng, espec):
         return rng.choice(espec["values"])[0]
     if r < 0.8:
         return None
-    return rng.choice([5, 99, "C", 1, 2])
+    return rng.choice([5, 99, "C", 1, 2, True, 1.0, False, 0, 2.0])
 
 
 def _rand_table(rng, enum_ids, enums):
